@@ -43,6 +43,9 @@ static std::vector<Event> reqEvents()
     // header block that outgrows the size limit in a later read
     add("err-bad-typed-header-after-headers", "GET /e HTTP/1.1\r\nHost: h\r\nX-A: 1\r\nCookie: broken\r\n\r\n", 36, true);
     add("err-oversize-inside-headers", "GET /o HTTP/1.1\r\nHost: h\r\nX-B: 2\r\nX-Pad: " + std::string(140, 'p'), 36, true);
+    // header values whose typed readers throw something other than an HTTP error (std::out_of_range, std::invalid_argument)
+    add("err-content-length-overflow", "POST /e HTTP/1.1\r\nHost: h\r\nContent-Length: 99999999999999999999999\r\n\r\n", 40, true);
+    add("err-host-port-out-of-range", "GET /e HTTP/1.1\r\nHost: localhost:99999\r\n\r\n", 30, true);
     add("err-method", "BREW /e HTTP/1.1\r\n\r\n", 3, true);
     add("err-version", "GET /e HTTQ/1.1\r\n\r\n", 10, true);
     // 41 header bytes + 70 body bytes arrive (within the 128 limit, body partly read), the next 60 trip the limit
@@ -117,7 +120,18 @@ struct Conn
         {
             lp::client_send(cfd, ev.bytes.substr(prev, e - prev));
             prev = e;
-            transitions += loop->settle();
+            try
+            {
+                transitions += loop->settle();
+            }
+            catch (const std::exception& ex)
+            {
+                // nothing above the input handler catches: in a server this terminates the worker thread
+                Result r;
+                r.obs         = std::string("EXCEPTION-ESCAPED-FROM-THE-EVENT-LOOP: ") + ex.what();
+                r.parserState = "?";
+                return r;
+            }
             response += lp::client_recv_all(cfd);
             // refused by the framework: the client does not send the rest. A well-formed message is always sent to
             // its last byte, whatever has come back meanwhile (an answer that arrives early does not un-send it)
@@ -242,6 +256,11 @@ static void run_sequence(const char* side, const std::vector<Event>& evs, const 
         Result r        = c.play(ev, mode, transitions);
         const Result& f = fresh[picks[i]];
         ctx.state(vr::hash_str(r.parserState + r.obs));
+        if (r.obs.compare(0, 17, "EXCEPTION-ESCAPED") == 0)
+        {
+            ctx.violation(std::string("c04:") + side + ":exception-escapes-the-input-handler:msg=" + ev.name, "{\"sequence\":" + vr::jstr(desc) + ",\"position\":" + std::to_string(i) + ",\"observed\":" + vr::jstr(r.obs) + "}");
+            break;
+        }
         if (i > 0 && r.obs != f.obs)
         {
             const Event& prevEv = evs[picks[i - 1] / 3];
